@@ -307,17 +307,28 @@ Print Assumptions C14_unmarked_fetch_refuted.
 (* a restore killed at any moment: the reopened db holds all of the old content or all of the
    checkpoint's (OpenRockDB finishes the interrupted restore) — and without the marker (before
    /repo d2f1422) a mixture, which the engine refused to open *)
-Theorem C14_restore_crash_all_or_nothing : forall k,
-  open_after_crash (rrun {| rs_data := DOld; rs_marked := false |} (firstn k restore_steps)) <> DMixed.
+Theorem C14_restore_crash_all_or_nothing : forall f k,
+  let d := open_after_crash (rrun {| rs_data := DOld; rs_marked := None |} (firstn k (restore_steps f))) in
+  d = DOld \/ d = DNew f.
 Proof. exact restore_crash_all_or_nothing. Qed.
 Print Assumptions C14_restore_crash_all_or_nothing.
 
-Theorem C14_restore_crash_unmarked_refuted :
-  exists k, open_after_crash (rrun {| rs_data := DOld; rs_marked := false |} (firstn k restore_steps_unmarked)) = DMixed.
+Theorem C14_restore_crash_unmarked_refuted : forall f,
+  exists k, open_after_crash (rrun {| rs_data := DOld; rs_marked := None |} (firstn k (restore_steps_unmarked f))) = DMixed.
 Proof. exact restore_crash_unmarked_refuted. Qed.
 Print Assumptions C14_restore_crash_unmarked_refuted.
 
-(* finishing an interrupted restore = running the file plan again on whatever is there: after k1
+(* the marker records WHICH backup directory is being restored; finishing from the store's local
+   backup directory instead (seeded/C14-c1) ends a crashed RestoreFromRemoteBackup with the local
+   checkpoint of the same name. Replayed on the Go code by the CRR crash cases. *)
+Theorem C14_restore_resume_from_local_dir_refuted :
+  exists k, let d := open_after_crash_local (rrun {| rs_data := DOld; rs_marked := None |} (firstn k (restore_steps FromRemote))) in
+    d <> DOld /\ d <> DNew FromRemote.
+Proof. exact restore_resume_from_local_dir_refuted. Qed.
+Print Assumptions C14_restore_resume_from_local_dir_refuted.
+
+(* finishing an interrupted restore = running the file plan again, on the checkpoint directory ck the
+   marker records, on whatever is there: after k1
    entries examined by the removal loop and (then) k2 checkpoint entries copied, the plan still
    succeeds and ends with the checkpoint's content; the checkpoint is unharmed *)
 Theorem C14_restore_resumes_from_any_crash : forall fs cur ck k1 k2,
@@ -431,15 +442,29 @@ Theorem C14_copy_restore : forall a b t i b' c later b2,
 Proof. exact copy_restore. Qed.
 Print Assumptions C14_copy_restore.
 
-(* a checkpoint transferred into rocksdb_backup/remote and applied by RestoreFromRemoteBackup, after any history *)
-Theorem C14_copy_remote_restore : forall a b t i b' c later b2,
-  wf b ->
-  ck_lookup (vs_cks a) (enc_name t i) = Some c ->
-  vcopy_remote a b t i = (b', ROk) ->
+(* a snapshot transferred into rocksdb_backup/remote from source src (ProposeOp_TransferRemoteSnap, with
+   the "already transferred from the same source" shortcut) and applied by RestoreFromRemoteBackup
+   after any history: the content restored is that of a checkpoint from THAT source *)
+Theorem C14_transfer_apply_same_source : forall a b src t i b' later b2,
+  wf b -> src <> 0 ->
+  vtransfer a b src t i = (b', ROk) ->
   vstep (run b' later) (ORestoreRemote t i) = (b2, ROk) ->
-  vs_val b2 = ck_val c.
-Proof. exact copy_remote_restore. Qed.
-Print Assumptions C14_copy_remote_restore.
+  exists c, vs_val b2 = ck_val c /\ ck_src c = src /\
+    ((ck_lookup (vs_remote b) (enc_name t i) = Some c) \/
+     (exists ca, ck_lookup (vs_cks a) (enc_name t i) = Some ca /\ ck_val c = ck_val ca /\ ck_dg c = ck_dg ca)).
+Proof. exact transfer_apply_same_source. Qed.
+Print Assumptions C14_transfer_apply_same_source.
+
+(* the shortcut keyed by (term,index) only (seeded/C14-c3): the other source's content is restored.
+   Replayed on the Go code by the RS cases (two sources, equal (term,index), different content). *)
+Theorem C14_transfer_any_source_refuted :
+  exists a b src t i b' b2,
+    wf b /\ src <> 0 /\ ck_lookup (vs_cks a) (enc_name t i) <> None /\
+    vtransfer_any_source a b src t i = (b', ROk) /\
+    vstep b' (ORestoreRemote t i) = (b2, ROk) /\
+    (forall ca, ck_lookup (vs_cks a) (enc_name t i) = Some ca -> vs_val b2 <> ck_val ca).
+Proof. exact transfer_any_source_refuted. Qed.
+Print Assumptions C14_transfer_any_source_refuted.
 
 (* the production path of a lagging replica: PrepareSnapshot (use the local checkpoint or fetch the
    peer's), later RestoreFromSnapshot *)
